@@ -1,11 +1,12 @@
 use std::cell::Cell;
 use std::sync::atomic::Ordering;
-use std::mem::ManuallyDrop;
 #[cfg(not(feature = "circ_verif_auto"))]
-use std::sync::atomic::AtomicU64;
+use std::{mem::ManuallyDrop, sync::atomic::AtomicU64};
 
 #[cfg(feature = "circ_verif_auto")]
 use crate::verif::HookedU64 as AtomicU64;
+#[cfg(feature = "circ_verif_auto")]
+use std::mem::ManuallyDrop;
 
 use crate::ebr_impl::{cs, global_epoch, Guard, Tagged, HIGH_TAG_WIDTH};
 use crate::RcObject;
